@@ -98,7 +98,10 @@ def dict_same_except(d1, d0, *keys):
     return {k: v for k, v in d1.items() if k not in ks} == {k: v for k, v in d0.items() if k not in ks}
 
 
-def held(lock): return True     # lock discipline clauses are VC-only
+def held(lock):
+    """the executing thread holds the lock (RLock); plain locks: unknown natively, taken as held"""
+    f = getattr(lock, '_is_owned', None)
+    return bool(f()) if f else True
 def last(log): return log[-1]
 def nth(rec, j, *a): return rec[j]
 def unchanged(field): return True    # heap frame clauses are VC-only
